@@ -15,6 +15,7 @@ import (
 	"math/big"
 	"strconv"
 	"strings"
+	"sync"
 	"time"
 
 	jsoniter "github.com/json-iterator/go"
@@ -127,7 +128,12 @@ type jtype struct {
 	decode func(path int, tok []byte) res // run the real wrapper on one path
 	encode func(v val) ([]byte, error)    // MarshalJSON
 	viaLib func(v val) (string, string)   // json.Marshal / jsoniter.Marshal of the value (advisory)
+	// entry marshals v through one encoder entry point and returns exactly what the API returned (no copy)
+	entry func(name string, v val) ([]byte, error)
 }
+
+// encoder entry points every JSON wrapper has
+var jsonEntries = []string{"MarshalJSON", "json.Marshal", "jsoniter.Marshal", "json.Marshal(struct)", "jsoniter.Marshal(struct)"}
 
 func mkJ[T any, PT interface {
 	*T
@@ -163,6 +169,22 @@ func mkJ[T any, PT interface {
 			a, _ := json.Marshal(fromVal(v))
 			b, _ := jiter.Marshal(fromVal(v))
 			return string(a), string(b)
+		},
+		entry: func(name string, v val) ([]byte, error) {
+			x := fromVal(v)
+			switch name {
+			case "MarshalJSON":
+				return marshal(x)
+			case "json.Marshal":
+				return json.Marshal(x)
+			case "jsoniter.Marshal":
+				return jiter.Marshal(x)
+			case "json.Marshal(struct)":
+				return json.Marshal(&holder[T]{V: x})
+			case "jsoniter.Marshal(struct)":
+				return jiter.Marshal(&holder[T]{V: x})
+			}
+			panic("harness: unknown entry point " + name)
 		},
 	}
 }
@@ -384,6 +406,16 @@ type input struct {
 	Old   *jv     `json:"old,omitempty"`
 	Arg   *sqlArg `json:"arg,omitempty"` // scan / toml
 	Class string  `json:"class"`
+	Hist  []hstep `json:"hist,omitempty"`  // hist / conc: the encoder calls, in order (conc: G = goroutine)
+	Loops int     `json:"loops,omitempty"` // conc: how often every goroutine repeats its call
+}
+
+// one encoder call of a history
+type hstep struct {
+	E    string `json:"e"`              // entry point
+	V    jv     `json:"v"`              // the value encoded
+	Keep bool   `json:"keep,omitempty"` // the result is kept and read at the end
+	G    int    `json:"g,omitempty"`    // conc: goroutine number
 }
 
 // ---------------------------------------------------------------- non-JSON text codecs
@@ -668,6 +700,8 @@ func (r *runner) run(in input) {
 			d["stdlib"] = map[string]interface{}{"RawStdEncoding.EncodeToString": string(s), "DecodeString": jres(pr)}
 		}
 		r.emit(in, fmt.Sprintf("CValue %s %s %s %s %s %s", in.T, cval(v), cval(old), orc, a.coq(), cres(back)), true, d)
+	case "hist", "conc":
+		r.history(in)
 	default:
 		panic("harness: unknown op " + in.Op)
 	}
@@ -693,4 +727,171 @@ func main() {
 		e.Meta["generator"] = "c20 v1: fixed boundary tokens + grammar-driven random tokens per wrapper; values from boundary pools + random bit lengths"
 		e.Meta["focus"] = strings.TrimSpace(e.Focus)
 	})
+}
+
+// ---------------------------------------------------------------- histories of encoder calls
+
+// encodeVia calls one encoder entry point of type t and returns what the API returned, untouched:
+// []byte, string, or the driver.Value of an SQL kind; codec = the model codec that describes that text
+func encodeVia(t, e string, v val) (kept interface{}, codec string) {
+	if jt := jtypes[t]; jt != nil {
+		switch e {
+		case "ToJS":
+			return tex.JsByte(v.L).ToJS(), "XByteStr"
+		case "ToString":
+			return tex.JsByte(v.L).ToString(), "XByteStr"
+		}
+		b, err := jt.entry(e, v)
+		if err != nil {
+			return []byte("encoder error: " + err.Error()), t
+		}
+		return b, t
+	}
+	if strings.HasPrefix(t, "XHex") {
+		return string(textEncode(t, v)), t
+	}
+	x, err := sqlValue(t, v)
+	if err != nil {
+		return nil, t
+	}
+	return x, t
+}
+
+type keptResult struct {
+	step  hstep
+	kept  interface{}
+	codec string
+	panic string
+}
+
+// readKept turns one kept result, as it reads NOW, into an item
+func readKept(t string, k keptResult) (string, map[string]interface{}) {
+	v := k.step.V.val()
+	d := map[string]interface{}{"entry": k.step.E, "value": jval(v)}
+	if k.step.G > 0 {
+		d["goroutine"] = k.step.G
+	}
+	if k.panic != "" {
+		d["panic"] = k.panic
+	}
+	if _, isSQL := map[string]bool{"KUnix2Time": true, "KNano2Time": true, "KStamp": true, "KSqlTime2Unix": true, "KBase64": true}[t]; isSQL {
+		old := sentI
+		if t == "KUnix2Time" || t == "KNano2Time" {
+			old = val{K: 't', S: 7777, N: 7}
+		} else if t == "KBase64" {
+			old = vl([]byte{77, 77})
+		}
+		a := argOf(k.kept)
+		back := sqlScan(t, old, k.kept)
+		if k.panic != "" {
+			back = res{Kind: 2, Text: k.panic}
+		}
+		orc := "O0"
+		if t == "KBase64" {
+			s := []byte(base64.RawStdEncoding.EncodeToString(v.L))
+			orc = oracleSP(v, s, b64DecOracle(s))
+		}
+		d["Value()"] = a
+		d["scanned_back_at_end"] = jres(back)
+		return fmt.Sprintf("IValue %s %s %s %s %s %s", t, cval(v), cval(old), orc, a.coq(), cres(back)), d
+	}
+	var out []byte
+	switch x := k.kept.(type) {
+	case []byte:
+		out = x
+	case string:
+		out = []byte(x)
+	}
+	if strings.HasSuffix(k.step.E, "(struct)") && len(out) >= 6 && string(out[:5]) == `{"v":` && out[len(out)-1] == '}' {
+		out = out[5 : len(out)-1] // a sub-slice of the same memory
+	}
+	var back res
+	if jt := jtypes[k.codec]; jt != nil {
+		back = jt.decode(0, out)
+	} else {
+		back = textDecode(k.codec, out)
+	}
+	if k.panic != "" {
+		back = res{Kind: 2, Text: k.panic}
+	}
+	orc := "O0"
+	if k.codec == "JDur" {
+		show := []byte(time.Duration(v.Z.Int64()).String())
+		orc = oracleSP(v, show, durParseOracle(show))
+	}
+	d["text_at_end"] = tokDesc(out)
+	d["decoded_at_end"] = jres(back)
+	return fmt.Sprintf("IEnc %s %s %s %s %s", ctyCoq(k.codec), cval(v), orc, cbytes(out), cres(back)), d
+}
+
+// history runs the encoder calls of in.Hist (op hist: in order on this goroutine; op conc: the calls of goroutine g
+// in a loop on their own goroutine, all started together), keeps the results marked Keep exactly as the API
+// returned them, and only when every call has returned reads and decodes each kept result.
+func (r *runner) history(in input) {
+	var kept []keptResult
+	if in.Op == "hist" {
+		for _, st := range in.Hist {
+			k := keptResult{step: st}
+			func() {
+				defer func() {
+					if p := recover(); p != nil {
+						k.panic = fmt.Sprint(p)
+					}
+				}()
+				k.kept, k.codec = encodeVia(in.T, st.E, st.V.val())
+			}()
+			if k.codec == "" {
+				k.codec = in.T
+			}
+			if st.Keep {
+				kept = append(kept, k)
+			}
+		}
+	} else {
+		results := make([][]keptResult, len(in.Hist))
+		start := make(chan struct{})
+		var wg sync.WaitGroup
+		for gi, st := range in.Hist {
+			wg.Add(1)
+			go func(gi int, st hstep) {
+				defer wg.Done()
+				v := st.V.val()
+				<-start
+				for n := 0; n < in.Loops; n++ {
+					k := keptResult{step: st}
+					func() {
+						defer func() {
+							if p := recover(); p != nil {
+								k.panic = fmt.Sprint(p)
+							}
+						}()
+						k.kept, k.codec = encodeVia(in.T, st.E, v)
+					}()
+					if k.codec == "" {
+						k.codec = in.T
+					}
+					// keep the first, the last and any result that panicked; the rest is dropped unread
+					if n == 0 || n == in.Loops-1 || k.panic != "" {
+						results[gi] = append(results[gi], k)
+					}
+				}
+			}(gi, st)
+		}
+		close(start)
+		wg.Wait() // the barrier: every encoder call has returned
+		for _, rs := range results {
+			kept = append(kept, rs...)
+		}
+	}
+	items := make([]string, len(kept))
+	descs := make([]interface{}, len(kept))
+	for i, k := range kept {
+		items[i], descs[i] = readKept(in.T, k)
+	}
+	d := map[string]interface{}{"calls": len(in.Hist), "kept_results_read_after_all_calls": descs}
+	if in.Op == "conc" {
+		d["goroutines"] = len(in.Hist)
+		d["loops"] = in.Loops
+	}
+	r.emit(in, "CHist "+vh.CoqList(items), true, d)
 }
